@@ -667,6 +667,99 @@ pub fn run(ctx: &mut Ctx) {
         for m in mocks.iter_mut() { m.delete(); }
     }
 
+    // ---- two files at once through one client (what `download_async` does with the files of one call): both plans contain the
+    //      same term X[s,e), file 1 inside the fetch range [s-a, e), file 2 inside [s, e+b) (different neighbours of a shared run
+    //      of chunks).  Each output must be the term's bytes whatever the other download does.  Monitor-only.
+    let n_pairs = if quick { 24 } else { 200 };
+    for qi in 0..n_pairs {
+        let pi = 2_000_000 + qi;
+        let mut rng = ctx.rng.fork(0xC17_6000 + qi as u64);
+        let equal = qi % 2 == 0;
+        let csize = 1 + rng.below(200) as usize;
+        let n = rng.range(4, 12) as u32;
+        let chunks: Vec<Vec<u8>> = (0..n).map(|_| { let l = if equal { csize } else { 1 + rng.below(400) as usize }; rng.bytes(l) }).collect();
+        let hash = [rng.next(), rng.next(), rng.next(), rng.next()];
+        let mk_xorb = |chunks: &Vec<Vec<u8>>| { let mut ser = Vec::new(); let mut ser_off = vec![0u32]; for c in chunks { cas_object::serialize_chunk(c, &mut ser, Some(CompressionScheme::None)).expect("serialize_chunk"); ser_off.push(ser.len() as u32); } Xorb { hash, chunks: chunks.clone(), ser, ser_off } };
+        let s = rng.range(1, n as u64 - 2) as u32; let e = rng.range(s as u64 + 1, n as u64 - 1) as u32;
+        let a = rng.range(1, s as u64) as u32; let b = rng.range(1, (n - e) as u64) as u32;
+        let (f1, f2) = if equal && rng.chance(1, 2) { let k = a.min(b); ((s - k, e), (s, e + k)) } else { ((s - a, e), (s, e + b)) };
+        let mk_plan = |id: usize, f: (u32, u32), tag: &str| PlanSpec { id, xorbs: vec![mk_xorb(&chunks)], terms: vec![TermSpec { xorb: 0, s, e }],
+            fetch: vec![FetchSpec { xorb: 0, s: f.0, e: f.1, url_path: format!("/q{id}/{tag}") }], shared_url: false, delay_ms: 0 };
+        let (p1, p2) = (mk_plan(pi, f1, "a"), mk_plan(pi, f2, "b"));
+        let want = p1.term_bytes(&p1.terms[0]);
+        let mut mocks = Vec::new();
+        for p in [&p1, &p2] {
+            let f = &p.fetch[0]; let ur = p.url_range(f);
+            let body = p.xorbs[0].ser[ur.start as usize..=ur.end as usize].to_vec();
+            let (path, hdr) = (f.url_path.clone(), format!("bytes={}-{}", ur.start, ur.end));
+            mocks.push(server.mock(|when, then| { when.method(GET).path(path).header("range", hdr); then.status(206).body(body).delay(Duration::from_millis(25)); }));
+        }
+        let whole = CallSpec { first: 0, last_excl: 1, offset: 0, range: None, len_delta: vec![], drop_fetch_of_term: None, extra_tail: 0, class: "two-files-at-once" };
+        for (writer, cached) in [(Writer::Seq, false), (Writer::Par, false), (Writer::Seq, true), (Writer::Par, true)] {
+            let salt = 0x7000_0000 + (qi as u64) * 8 + (writer == Writer::Par) as u64 * 2 + cached as u64;
+            let client = if cached { env.client_cache.clone() } else { env.client_off.clone() };
+            let (t1, fi1) = build_args(&p1, &whole, env.server, salt);
+            let (t2, fi2) = build_args(&p2, &whole, env.server, salt);
+            let (o1, o2) = (env.fresh_path("two_a"), env.fresh_path("two_b"));
+            let (pr1, pr2) = (OutputProvider::File(FileProvider::new(o1.clone())), OutputProvider::File(FileProvider::new(o2.clone())));
+            let (c1, c2) = (client.clone(), client.clone());
+            let res = env.pool.external_run_async_task(async move {
+                let (fi1, fi2) = (Arc::new(fi1), Arc::new(fi2));
+                let d1 = async { match writer { Writer::Seq => c1.reconstruct_file_to_writer(t1, fi1, 0, None, &pr1, None).await, Writer::Par => c1.reconstruct_file_to_writer_parallel(t1, fi1, 0, None, &pr1, None).await } };
+                let d2 = async { match writer { Writer::Seq => c2.reconstruct_file_to_writer(t2, fi2, 0, None, &pr2, None).await, Writer::Par => c2.reconstruct_file_to_writer_parallel(t2, fi2, 0, None, &pr2, None).await } };
+                tokio::join!(d1, d2)
+            });
+            let replay = format!("{{\"suite\":\"reconstruct\",\"seed\":{},\"two_files_pair\":{qi},\"xorb_chunks\":{n},\"equal_chunk_sizes\":{equal},\"term\":\"0:{s}-{e}\",\"fetch_file1\":\"{}-{}\",\"fetch_file2\":\"{}-{}\",\"writer\":\"{writer:?}\",\"cache\":{cached}}}", ctx.seed, f1.0, f1.1, f2.0, f2.1);
+            match res {
+                Err(_) => ctx.fail("C17", "two-files-at-once-panic", format!("pair {qi} {writer:?}: downloading two files that share a term through one client panicked"), replay),
+                Ok((r1, r2)) => {
+                    for (which, r, path) in [(1, r1, &o1), (2, r2, &o2)] {
+                        let got = std::fs::read(path).unwrap_or_default();
+                        match r {
+                            Ok(nrep) if got == want && nrep as usize == want.len() => {}
+                            Ok(nrep) => { ctx.fail("C17", "two-files-at-once-wrong-bytes", format!("pair {qi} {writer:?} cache={cached}: file {which} (term 0:[{s},{e}) inside fetch range {:?}) downloaded while the other file (same term inside {:?}) was being downloaded through the same client: reported {nrep} bytes, wrote {} bytes, {} (expected the {} bytes of the term)", if which == 1 { f1 } else { f2 }, if which == 1 { f2 } else { f1 }, got.len(), if got == want { "content right".to_string() } else { format!("content differs from byte {:?}", got.iter().zip(want.iter()).position(|(x, y)| x != y)) }, want.len()), replay.clone()); }
+                            Err(e) => { ctx.fail("C17", "two-files-at-once-error", format!("pair {qi} {writer:?} cache={cached}: file {which} failed while the other file sharing its term was downloaded through the same client: {}", format!("{e:?}").chars().take(160).collect::<String>()), replay.clone()); }
+                        }
+                    }
+                    ctx.stat("two_files_at_once_runs");
+                }
+            }
+            let _ = std::fs::remove_file(&o1); let _ = std::fs::remove_file(&o2);
+        }
+        for m in mocks.iter_mut() { m.delete(); }
+    }
+
+    // ---- many terms under a modest open-file limit ("1..many terms"): 600 terms through both writers while the process may open
+    //      only ~150 more descriptors than it already holds (a usual soft limit is 256 or 1024; the writers need a handful at a time)
+    for round in 0..(if quick { 1 } else { 4 }) {
+        let mut rng = ctx.rng.fork(0xC17_7000 + round as u64);
+        let pi = 3_000_000 + round;
+        let x = gen_xorb(&mut rng, false);
+        let n = x.chunks.len() as u32;
+        let nterms = 600 + rng.below(200) as usize;
+        let terms: Vec<TermSpec> = (0..nterms).map(|_| { let s = rng.below(n as u64) as u32; let e = rng.range(s as u64 + 1, n as u64) as u32; TermSpec { xorb: 0, s, e } }).collect();
+        let plan = PlanSpec { id: pi, xorbs: vec![x], terms, fetch: vec![FetchSpec { xorb: 0, s: 0, e: n, url_path: format!("/m{pi}/x0") }], shared_url: false, delay_ms: 0 };
+        let mut mocks = plan.register(&server, &mut rng);
+        let all: Vec<u8> = plan.terms.iter().flat_map(|t| plan.term_bytes(t)).collect();
+        let whole = CallSpec { first: 0, last_excl: plan.terms.len(), offset: 0, range: None, len_delta: vec![], drop_fetch_of_term: None, extra_tail: 0, class: "many-terms" };
+        let open_now = std::fs::read_dir("/proc/self/fd").map(|d| d.count()).unwrap_or(64) as u64;
+        let mut old = libc::rlimit { rlim_cur: 0, rlim_max: 0 };
+        unsafe { libc::getrlimit(libc::RLIMIT_NOFILE, &mut old); }
+        let limited = libc::rlimit { rlim_cur: (open_now + 150).min(old.rlim_max), rlim_max: old.rlim_max };
+        for writer in [Writer::Seq, Writer::Par] {
+            unsafe { libc::setrlimit(libc::RLIMIT_NOFILE, &limited); }
+            let out = run_call(&mut env, &plan, &whole, writer, &Via::Off, 0x7700_0000 + round as u64);
+            unsafe { libc::setrlimit(libc::RLIMIT_NOFILE, &old); }
+            let replay = format!("{{\"suite\":\"reconstruct\",\"seed\":{},\"many_terms_round\":{round},\"terms\":{nterms},\"xorb_chunks\":{n},\"writer\":\"{writer:?}\",\"open_file_limit\":{},\"descriptors_open_before\":{open_now}}}", ctx.seed, limited.rlim_cur);
+            match &out {
+                Outcome::Ok { reported, bytes } if bytes == &all && *reported == all.len() as u64 => {}
+                o => ctx.fail("C17", "many-terms-plan-fails", format!("a well-formed plan of {nterms} terms over one xorb, {writer:?} writer, file output, {} descriptors available beyond those already open: {}", limited.rlim_cur - open_now, match o { Outcome::Reject(e) => format!("error {e}"), Outcome::Panic => "panic".into(), Outcome::Ok { reported, bytes } => format!("reported {reported}, wrote {} bytes, expected {}", bytes.len(), all.len()) }), replay),
+            }
+            ctx.stat("many_terms_runs_under_descriptor_limit");
+        }
+        for m in mocks.iter_mut() { m.delete(); }
+    }
+
     // ---- thorough tier: a file of more than 4 GiB (u32 arithmetic on lengths must not be involved anywhere): 513 terms, each the
     // whole of one 8 MiB xorb, served warm from the chunk cache after the first fetch; the 4 GiB output is checked by length and by
     // sampled positions, not read into memory; monitors only (the list-based model is not run on 4 GiB)
